@@ -404,6 +404,52 @@ def _check_save(case):
     return 1, name + ":" + st, (ti, fmt, blanks, name), viols
 
 
+ARG_CALLS = ("getValuesAtPoints-exact", "getValuesAtPoints-fuzzy", "getValuesInIntervals", "mergeTiers-name-list", "IntervalTier-entry-list",
+             "PointTier-entry-list", "new-entry-list", "insertEntry-entry-as-list")
+
+
+def _check_plain_arguments(case):
+    """the caller-owned arguments that are NOT tiers - lists of data rows, of names, of entries - are read, never rewritten: after the call the
+    list holds the same objects in the same order ("leaves the receiver and every argument observably unchanged")"""
+    which, order = case
+    rows = [(3.5, 30), (1.0, 10), (4.0, 40), (2.0, 20), (0.5, 5), (3.0, 33)]
+    if order == "sorted":
+        rows = sorted(rows)
+    pt = PT("p", [(1.0, "a"), (2.0, "b"), (3.25, "c")], 0.0, 5.0)
+    it = IT("t", [(0.0, 1.5, "a"), (2.0, 3.0, "b")], 0.0, 5.0)
+    if which.startswith("getValuesAtPoints"):
+        arg = list(rows)
+        f = lambda: pt.getValuesAtPoints(arg, which.endswith("fuzzy"))
+    elif which == "getValuesInIntervals":
+        arg = list(rows)
+        f = lambda: it.getValuesInIntervals(arg)
+    elif which == "mergeTiers-name-list":
+        tg = Textgrid(0.0, 5.0)
+        for nm in ("z", "b", "a"):
+            tg.addTier(it.new(nm))
+        arg = ["z", "a"] if order == "sorted" else ["a", "z"]
+        f = lambda: tg.mergeTiers(arg, True)
+    elif which == "IntervalTier-entry-list":
+        arg = [(2.0, 3.0, " b "), (0.0, 1.5, "a")] if order != "sorted" else [(0.0, 1.5, "a"), (2.0, 3.0, " b ")]
+        f = lambda: IT("n", arg, 0.0, 5.0)
+    elif which == "PointTier-entry-list":
+        arg = [(2.0, " b "), (1, "a")] if order != "sorted" else [(1, "a"), (2.0, " b ")]
+        f = lambda: PT("n", arg, 0.0, 5.0)
+    elif which == "new-entry-list":
+        arg = [(2.0, 3.0, "b"), (0.0, 1.5, "a")] if order != "sorted" else [(0.0, 1.5, "a"), (2.0, 3.0, "b")]
+        f = lambda: it.new(entries=arg)
+    else:
+        arg = [3.5, 4.0, " n "]
+        f = lambda: it.insertEntry(arg, "error", "silence")
+    before = list(arg)
+    st, r, _ = call(f)
+    if st == "exc":
+        return 1, "X", None, [Viol("call-raised:" + type(r).__name__, f"{which} ({order}): {r!r}")]
+    if len(arg) != len(before) or any(x is not y for x, y in zip(arg, before)):
+        return 1, "!", None, [Viol("argument-rewritten", f"{which}: the list handed in was {before}, after the call it is {arg}")]
+    return 1, "ok", (which, order), []
+
+
 def parts(tier):
     quick = tier == "quick"
     depth = 2 if quick else 3
@@ -497,6 +543,9 @@ def parts(tier):
                     for fi in range(len(FAILS)):
                         yield (ti, fmt, blanks, fi)
 
+    ps.append(InputPart("plain-arguments-unchanged", lambda: ((w, o) for w in ARG_CALLS for o in ("shuffled", "sorted")), _check_plain_arguments,
+                        rule="%d calls that take a caller-owned list which is not a tier (data rows, tier names, entry lists) x the list in and out of order: "
+                             "after the call the list holds the same objects in the same order" % len(ARG_CALLS), bounds={}))
     ps.append(InputPart("save-onto-existing-file", gen_save, _check_save,
                         rule="%d textgrids x 4 formats x includeBlankSpaces x %d argument choices (failing overrides, invalid format / "
                              "mode, invalid textgrid under reportingMode='error', and succeeding controls) saved onto a pre-existing "
